@@ -6,7 +6,7 @@ hist = sys.argv[5] if len(sys.argv) > 5 else None
 d = f'/verif/seeded/{sid}/'
 v = open(d + 'verify.txt').read() if os.path.exists(d + 'verify.txt') else ''
 m = {'id': sid, 'property': prop, 'summary': summary, 'needs_to_manifest': needs,
-     'origin': 'independent sub-agent given only the property text and a scratch worktree of /repo (round-2 agents were additionally told which ideas earlier agents had used, to force a different mechanism)',
+     'origin': 'independent sub-agent given only the property text and a scratch worktree of /repo (from round 2 on the agents were additionally told which ideas earlier agents had used, to force a different mechanism)',
      'confirmed_by_me': {'how': 'scripts/seedtest.sh: fresh worktree of /repo HEAD; demo test run without the change (pass) and with the change (fail); unedited suite with the change (232/232 baseline tests pass); then patch applied to /repo, ./check all, git checkout', 'result': v.strip().splitlines()}}
 if hist:
     m['history'] = hist
